@@ -22,7 +22,9 @@ def _pix(b):
 
 
 NONINT = [1.0, 2.5, '3', None, [1], np.float64(2.0), np.array(3), float('nan')]
-INTLIKE = [lambda v: int(v), lambda v: np.int64(v), lambda v: np.int32(v), lambda v: np.int8(v) if -128 <= v < 128 else int(v)]
+INTLIKE = [lambda v: int(v), lambda v: np.int64(v), lambda v: np.int32(v), lambda v: np.int8(v) if -128 <= v < 128 else int(v),
+           lambda v: np.uint8(v) if 0 <= v < 256 else int(v), lambda v: np.uint16(v) if 0 <= v < 65536 else int(v),
+           lambda v: np.uint64(v) if 0 <= v else int(v), lambda v: np.int16(v) if -32768 <= v < 32768 else int(v)]
 
 
 def boxes_in(lo, hi):
